@@ -943,7 +943,12 @@ func c05EvalOwner(o c05Owner, pod *corev1.Pod) (obj, ctrl, lbl bool) {
 		if o.ctrl.Namespace == "" || o.ctrl.Namespace == pod.Namespace {
 			for _, ref := range pod.OwnerReferences {
 				ok := true
+				// an EXPLICIT controller flag in the owner spec: the pod's ownerReference must carry the flag (present) and
+				// carry the same value; a reference that leaves the flag unset does not say what the spec demands
 				if o.ctrl.Controller != nil && (ref.Controller == nil || *ref.Controller != *o.ctrl.Controller) {
+					ok = false
+				}
+				if o.ctrl.APIVersion != "" && o.ctrl.APIVersion != ref.APIVersion {
 					ok = false
 				}
 				if o.ctrl.UID != "" && o.ctrl.UID != ref.UID {
@@ -1098,6 +1103,61 @@ func c05SelLine(t *testing.T, sel *metav1.LabelSelector, lbls map[string]string)
 	return s
 }
 
+// controller references (round 8): the strings of metav1.OwnerReference as small integers, 0 = the empty string
+var (
+	c05CtlUIDs  = []string{"", "u1", "u2"}
+	c05CtlNames = []string{"", "rs1", "rs2"}
+	c05CtlKinds = []string{"", "ReplicaSet", "StatefulSet"}
+	c05CtlAPIs  = []string{"", "apps/v1", "apps/v1beta1"}
+	c05CtlNss   = []string{"", "default", "other"}
+)
+
+func c05CtlCode(t *testing.T, tbl []string, v string) int {
+	for i, x := range tbl {
+		if x == v {
+			return i
+		}
+	}
+	t.Fatalf("harness: string %q outside the generated vocabulary %v", v, tbl)
+	return -1
+}
+
+// *bool: 0 nil, 1 &true, 2 &false
+func c05CtlFlag(b *bool) int {
+	if b == nil {
+		return 0
+	}
+	if *b {
+		return 1
+	}
+	return 2
+}
+
+func c05CtlFlagPtr(code int) *bool {
+	switch code {
+	case 1:
+		return ptr.To(true)
+	case 2:
+		return ptr.To(false)
+	}
+	return nil
+}
+
+func c05CtlFlagText(b *bool) string { return []string{"nil", "true", "false"}[c05CtlFlag(b)] }
+
+func c05CtlRefsText(refs []metav1.OwnerReference) string {
+	s := "["
+	for _, ref := range refs {
+		s += fmt.Sprintf("{controller %s uid %q name %q kind %q apiVersion %q}", c05CtlFlagText(ref.Controller), ref.UID, ref.Name, ref.Kind, ref.APIVersion)
+	}
+	return s + "]"
+}
+
+func c05CtlRefToks(t *testing.T, ref metav1.OwnerReference) string {
+	return fmt.Sprintf("%d %d %d %d %d", c05CtlFlag(ref.Controller), c05CtlCode(t, c05CtlUIDs, string(ref.UID)), c05CtlCode(t, c05CtlNames, ref.Name),
+		c05CtlCode(t, c05CtlKinds, ref.Kind), c05CtlCode(t, c05CtlAPIs, ref.APIVersion))
+}
+
 func TestVerifC05Match(t *testing.T) {
 	h := vOpen("C05")
 	if h == nil {
@@ -1122,7 +1182,20 @@ func TestVerifC05Match(t *testing.T) {
 			pod.Labels["tier"] = tier
 		}
 		if r.Bool() {
-			pod.OwnerReferences = []metav1.OwnerReference{{Name: []string{"rs1", "rs2"}[r.Intn(2)], Kind: "ReplicaSet", UID: "u1", Controller: ptr.To(r.Bool())}}
+			// 1 (sometimes 2) ownerReferences; the controller flag is nil / &true / &false, the other fields mostly the usual ones
+			for nr := r.Range(1, 4) / 4 + 1; nr > 0; nr-- {
+				ref := metav1.OwnerReference{Name: []string{"rs1", "rs2"}[r.Intn(2)], Kind: "ReplicaSet", UID: "u1", Controller: c05CtlFlagPtr(r.Intn(3))}
+				if r.Chance(1, 4) {
+					ref.UID = "u2"
+				}
+				if r.Chance(1, 5) {
+					ref.Kind = "StatefulSet"
+				}
+				if r.Chance(2, 3) {
+					ref.APIVersion = c05CtlAPIs[r.Range(1, 2)]
+				}
+				pod.OwnerReferences = append(pod.OwnerReferences, ref)
+			}
 		}
 		podCPU := int64(r.Range(1, 3) * 500)
 		pod.Spec.Containers = []corev1.Container{{Name: "c", Resources: corev1.ResourceRequirements{Requests: corev1.ResourceList{corev1.ResourceCPU: c05Q(0, podCPU)}}}}
@@ -1144,12 +1217,55 @@ func TestVerifC05Match(t *testing.T) {
 			case 2:
 				o.obj = &corev1.ObjectReference{Namespace: []string{"default", "other"}[r.Intn(2)], Kind: "Pod"}
 			}
-			switch r.Intn(5) {
+			switch r.Intn(6) {
 			case 0:
 				o.ctrl = &schedulingv1alpha1.ReservationControllerReference{OwnerReference: metav1.OwnerReference{Name: []string{"rs1", "rs2"}[r.Intn(2)]}}
 			case 1:
-				o.ctrl = &schedulingv1alpha1.ReservationControllerReference{OwnerReference: metav1.OwnerReference{Kind: "ReplicaSet", Controller: ptr.To(true)},
+				o.ctrl = &schedulingv1alpha1.ReservationControllerReference{OwnerReference: metav1.OwnerReference{Kind: "ReplicaSet", Controller: c05CtlFlagPtr(r.Range(1, 6) % 3)},
 					Namespace: []string{"", "default", "other"}[r.Intn(3)]}
+			case 2, 3:
+				// the spec names one of the pod's own ownerReferences (same uid / name / kind / apiVersion, some of them left
+				// empty), sometimes with ONE field different, and states the controller flag nil / &true / &false
+				// independently of the flag on the pod's reference: the whole 3x3 table of (spec flag, pod flag)
+				c := &schedulingv1alpha1.ReservationControllerReference{OwnerReference: metav1.OwnerReference{Name: "rs1", Kind: "ReplicaSet", UID: "u1", APIVersion: "apps/v1"}}
+				if len(pod.OwnerReferences) > 0 {
+					c.OwnerReference = pod.OwnerReferences[r.Intn(len(pod.OwnerReferences))]
+					c.BlockOwnerDeletion = nil
+				}
+				for f := 0; f < 4; f++ {
+					if r.Chance(1, 3) {
+						switch f {
+						case 0:
+							c.UID = ""
+						case 1:
+							c.Name = ""
+						case 2:
+							c.Kind = ""
+						case 3:
+							c.APIVersion = ""
+						}
+					}
+				}
+				if r.Chance(1, 4) {
+					switch r.Intn(4) {
+					case 0:
+						c.UID = types.UID(c05CtlUIDs[r.Range(1, 2)])
+					case 1:
+						c.Name = c05CtlNames[r.Range(1, 2)]
+					case 2:
+						c.Kind = c05CtlKinds[r.Range(1, 2)]
+					case 3:
+						c.APIVersion = c05CtlAPIs[r.Range(1, 2)]
+					}
+				}
+				c.Controller = c05CtlFlagPtr(r.Intn(3))
+				if r.Chance(1, 3) {
+					c.Namespace = []string{"default", "other"}[r.Intn(2)]
+					if r.Chance(2, 3) {
+						c.Namespace = pod.Namespace
+					}
+				}
+				o.ctrl = c
 			}
 			switch r.Intn(5) {
 			case 0:
@@ -1298,6 +1414,54 @@ func TestVerifC05Match(t *testing.T) {
 				h.Tag("own:labels-hold-expressions-violated")
 			}
 		}
+		// input class (fingerprint only): some entry is satisfied in everything BUT the explicit controller flag of its
+		// controller reference (the pod's ownerReference leaves the flag unset or states the other value)
+		if ownFP == "C05:owner-mismatch" {
+			for _, o := range owners {
+				if o.ctrl == nil || o.ctrl.Controller == nil {
+					continue
+				}
+				noFlag := *o.ctrl
+				noFlag.Controller = nil
+				a, b, c := c05EvalOwner(o, pod)
+				if _, b2, _ := c05EvalOwner(c05Owner{ctrl: &noFlag}, pod); a && c && !b && b2 {
+					ownFP = "C05:owner-mismatch:controller-flag"
+					h.Tag("own:only-controller-flag-unmet")
+				}
+			}
+		}
+		// at a wrong acceptance: which entry does the real matcher accept ON ITS OWN although the harness' reading rejects it,
+		// and which part of it is unmet - names the fingerprint more precisely than the input class (evaluated on failures only)
+		ownCause := func() string {
+			for _, o := range owners {
+				a, b, c := c05EvalOwner(o, pod)
+				if a && b && c {
+					continue
+				}
+				acc := false
+				if h.Guard(func() {
+					ms, err := reservationutil.ParseReservationOwnerMatchers([]schedulingv1alpha1.ReservationOwner{{Object: o.obj, Controller: o.ctrl, LabelSelector: o.sel}})
+					acc = err == nil && len(ms) == 1 && ms[0].Match(pod)
+				}) || !acc {
+					continue
+				}
+				if a && c && !b && o.ctrl != nil {
+					noFlag := *o.ctrl
+					noFlag.Controller = nil
+					if _, b2, _ := c05EvalOwner(c05Owner{ctrl: &noFlag}, pod); b2 {
+						return "C05:owner-mismatch:controller-flag"
+					}
+					return "C05:owner-mismatch:controller-reference"
+				}
+				if a && b && !c && o.sel != nil {
+					if l, _, _ := c05EvalSelector(o.sel, pod.Labels); l && len(o.sel.MatchLabels) > 0 && len(o.sel.MatchExpressions) > 0 {
+						return "C05:owner-mismatch:labels-and-expressions"
+					}
+					return "C05:owner-mismatch"
+				}
+			}
+			return ownFP
+		}
 		sp := ""
 		if len(tri) > 0 {
 			sp = " " + vInts(tri)
@@ -1331,11 +1495,57 @@ func TestVerifC05Match(t *testing.T) {
 					i, ow.LabelSelector.MatchLabels, ow.LabelSelector.MatchExpressions, pod.Labels, l, e, inv)
 			}
 		}
+		// every controller reference of the spec on its own, through the real ParseReservationOwnerMatchers /
+		// MatchReservationOwners (the entry the reservation info's owner matcher uses); the model (Model/C05Ctl.lean) reads
+		// the reference and the pod's ownerReferences itself; ORACLE by the harness' own reading (c05EvalOwner): every
+		// non-empty field of the spec equal on ONE ownerReference of the pod, and "explicit flag in the spec => the pod's
+		// flag is present and equal"
+		for i, ow := range spec {
+			if ow.Controller == nil {
+				continue
+			}
+			line := fmt.Sprintf("ctl %d %d %s %d", c05CtlCode(t, c05CtlNss, ow.Controller.Namespace), c05CtlCode(t, c05CtlNss, pod.Namespace),
+				c05CtlRefToks(t, ow.Controller.OwnerReference), len(pod.OwnerReferences))
+			for _, ref := range pod.OwnerReferences {
+				line += " " + c05CtlRefToks(t, ref)
+			}
+			h.Op("%s", line)
+			accepted := false
+			if h.Guard(func() {
+				ms, err := reservationutil.ParseReservationOwnerMatchers([]schedulingv1alpha1.ReservationOwner{{Controller: ow.Controller}})
+				accepted = err == nil && len(ms) == 1 && reservationutil.MatchReservationOwners(pod, ms)
+			}) {
+				h.Obs("ctl panic")
+				continue
+			}
+			h.Obs("ctl %d", vB(accepted))
+			_, want, _ := c05EvalOwner(c05Owner{ctrl: ow.Controller}, pod)
+			flags := ""
+			for _, ref := range pod.OwnerReferences {
+				flags += strconv.Itoa(c05CtlFlag(ref.Controller))
+			}
+			h.Tag(fmt.Sprintf("ctl:spec-flag=%d:pod-flags=%s:accepted=%v", c05CtlFlag(ow.Controller.Controller), flags, accepted))
+			if accepted && !want {
+				fp := "C05:owner-mismatch:controller-reference"
+				// input class: dropping the flag from the spec would make the harness' reading accept too, i.e. ONLY the flag is unmet
+				noFlag := *ow.Controller
+				noFlag.Controller = nil
+				if _, w2, _ := c05EvalOwner(c05Owner{ctrl: &noFlag}, pod); w2 {
+					fp = "C05:owner-mismatch:controller-flag"
+				}
+				h.Fail(fp, "owner entry %d: controller reference {ns %q controller %s uid %q name %q kind %q apiVersion %q} accepts a pod in namespace %q whose ownerReferences are %s: no ownerReference agrees with every non-empty field of the spec AND carries the stated controller flag (an explicit flag in the spec needs the pod's flag present and equal)",
+					i, ow.Controller.Namespace, c05CtlFlagText(ow.Controller.Controller), ow.Controller.UID, ow.Controller.Name, ow.Controller.Kind, ow.Controller.APIVersion,
+					pod.Namespace, c05CtlRefsText(pod.OwnerReferences))
+			}
+			if accepted && ow.Controller.Controller != nil {
+				h.Tag("ctl:explicit-flag-accepted")
+			}
+		}
 		h.Op("own %d %d%s", vB(perr), k, sp)
 		got := rInfo.MatchOwners(pod)
 		h.Obs("own %d", vB(got))
 		if got && !satisfied {
-			h.Fail(ownFP, "MatchOwners accepted a pod (labels %v) that satisfies none of the %d owner entries (all of matchLabels AND all of matchExpressions; unparsable spec: %v); selectors:%s", pod.Labels, len(spec), perr, selText)
+			h.Fail(ownCause(), "MatchOwners accepted a pod (labels %v, ownerReferences %s) that satisfies none of the %d owner entries (all of matchLabels AND all of matchExpressions; controller reference incl. an explicit controller flag present and equal; unparsable spec: %v); selectors:%s", pod.Labels, c05CtlRefsText(pod.OwnerReferences), len(spec), perr, selText)
 		}
 		h.Tag(fmt.Sprintf("own:%v", got))
 		h.Tag(fmt.Sprintf("owners:%d", k))
@@ -1360,7 +1570,7 @@ func TestVerifC05Match(t *testing.T) {
 				h.Tag(fmt.Sprintf("chk:%v", m))
 				// ORACLE: a pod is only matched (not merely "ignored") to a reservation whose owner spec it satisfies
 				if m && !ignored && !satisfied {
-					h.Fail(ownFP, "pod (labels %v) matched to a reservation although it satisfies none of its %d owner entries (all of matchLabels AND all of matchExpressions; unparsable spec: %v); selectors:%s", pod.Labels, len(spec), perr, selText)
+					h.Fail(ownCause(), "pod (labels %v, ownerReferences %s) matched to a reservation although it satisfies none of its %d owner entries (all of matchLabels AND all of matchExpressions; controller reference incl. an explicit controller flag present and equal; unparsable spec: %v); selectors:%s", pod.Labels, c05CtlRefsText(pod.OwnerReferences), len(spec), perr, selText)
 				}
 				if m && !ignored && satisfied {
 					h.Nontrivial()
@@ -1369,7 +1579,7 @@ func TestVerifC05Match(t *testing.T) {
 		}
 		h.End()
 	}
-	h.Close("one pod (name/uid/namespace/labels/controller reference varied) against one reservation with 0-3 owner entries (object reference, " +
-		"controller reference, label selector: matchLabels only / In-expression only / empty / BOTH matchLabels and matchExpressions (In, NotIn, Exists, DoesNotExist, two expressions; satisfied or violated by the pod's app / tier labels) / unparsable (unknown operator or In without values, alone or next to matchLabels the pod carries)), unschedulable / terminating / tainted reservation, " +
+	h.Close("one pod (name/uid/namespace/labels varied; 0-2 ownerReferences with controller flag nil / true / false, uid, name, kind, apiVersion varied) against one reservation with 0-3 owner entries (object reference, " +
+		"controller reference (name only / kind + flag + namespace / one of the pod's own ownerReferences with fields left empty or one field different and the flag nil / true / false: the 3x3 flag table), label selector: matchLabels only / In-expression only / empty / BOTH matchLabels and matchExpressions (In, NotIn, Exists, DoesNotExist, two expressions; satisfied or violated by the pod's app / tier labels) / unparsable (unknown operator or In without values, alone or next to matchLabels the pod carries)), unschedulable / terminating / tainted reservation, " +
 		"pod with ignore label, reservation affinity by name / selector, tolerations, exact-match spec; non-trivial = matched through an owner entry; distinct by op lines")
 }
